@@ -256,13 +256,20 @@ type exFile struct {
 type exStmt struct {
 	Pos    lexer.Position
 	Let    *exLet  `  @@`
+	Raw    *exRaw  `| @@`
 	Expr   *exExpr `| @@`
 	EndPos lexer.Position
 }
 
 type exLet struct {
-	Name string  `"LET" @Ident "="`
-	Val  *exExpr `@@`
+	Name  string  `"LET" @Ident "="`
+	Val   *exExpr `(?! ";" | "LET" ) @@`
+	Where *exExpr `( (?= "WHERE" ) "WHERE" @@ )?`
+}
+
+// exRaw captures any run of tokens up to the statement terminator (token negation).
+type exRaw struct {
+	Words []string `"RAW" @!( ";" | ")" )+`
 }
 
 type exExpr struct {
@@ -306,6 +313,11 @@ var worldExpr = &world{
 		{name: "mixed", valid: true, text: "let x = 1 + 2 * (3 - y);\nf(x, g(1, \"two\"), -3.5);\nlet é = \"ünï\" + x;\n",
 			stmts: []string{"let x = 1 + 2 * (3 - y);", "f(x, g(1, \"two\"), -3.5);", "let é = \"ünï\" + x;"}},
 		{name: "calls", valid: true, text: "a();b(c());d(e, f(g(h)));\n", stmts: []string{"a();", "b(c());", "d(e, f(g(h)));"}},
+		{name: "raw-where", valid: true, text: "raw a + ( b 1.5 \"s\";\nlet v = x * 2 where v > 0;\nraw z;", stmts: []string{"raw a + ( b 1.5 \"s\";", "let v = x * 2 where v > 0;", "raw z;"}},
+		{name: "raw-empty", valid: true, text: "raw ;"},
+		{name: "raw-paren", valid: false, text: "raw a ) b;"},
+		{name: "let-empty", valid: false, text: "let x = ;"},
+		{name: "let-let", valid: false, text: "let x = let;"},
 		flatDoc("flat-sum", "1", " + 1", ";\n"),
 		flatDoc("flat-stmts", "", "x;", ""),
 		flatDoc("flat-args", "f(0", ", 1", ");"),
@@ -640,6 +652,9 @@ func worldByName(n string) *world {
 	}
 	if n == worldCallbacks.name {
 		return worldCallbacks
+	}
+	if n == worldDurations.name {
+		return worldDurations
 	}
 	return nil
 }
